@@ -2,6 +2,7 @@
 
 Decides: range- and garbage-checked narrowing of the port, empty-port rejection, default port constant, bracket discipline,
 conversion only through inet_pton / inet_ntop with a rejection arm.  Correctness for every literal form is value-level."""
+import re
 from .. import cfg, lib, facts
 from ..facts import AnalysisBroken, strip_tmpl
 
@@ -13,7 +14,7 @@ def run(ck):
     ck.rule("C19-R1", "B range check dominates narrowing",
             "every static_cast<uint16_t> of a value produced by a text-to-number conversion (Port::Port(const std::string&), "
             "Address::init) is reached only past a bail-out that throws std::invalid_argument and whose condition tests the end pointer "
-            "(trailing garbage) and the value against Port::min() and Port::max(); the conversion is strtol with an end pointer", 2)
+            "(trailing garbage) and the value against Port::min() and Port::max(); the conversion is strtol with an end pointer", 1)
     ck.rule("C19-R2", "C path facts",
             "an empty port after a colon is rejected with invalid_argument (AddressParser and Address::init); without a port the default is "
             "Const::HTTP_STANDARD_PORT; an empty port string is rejected by Port::Port; only ':port' may follow a bracketed literal", 5)
@@ -26,72 +27,115 @@ def run(ck):
     CONVS = ("strtol", "strtoul", "strtoll", "std::stol", "std::stoi", "std::stoul", "atoi", "atol", "std::strtol", "sscanf", "std::from_chars")
     # every function of the address/port parser that narrows a converted number to a port (Port(const std::string&), Address::init or
     # the helper it delegates to)
-    targets = [f for f in prog.library_funcs() if in_net(f) and
-               [e for e in f.events("cast") if (e.get("to") or "").replace("std::", "") in ("uint16_t", "unsigned short")] and
-               [e for e in f.calls(lambda e: (e.get("callee") or "") in CONVS)]]
-    ck.require(len(targets) >= 1, "functions that convert text to a port number: %d found" % len(targets))
-    for f in targets:
-        casts = [e for e in f.events("cast") if (e.get("to") or "").replace("std::", "") in ("uint16_t", "unsigned short")]
-        convs = [e for e in f.calls(lambda e: (e.get("callee") or "") in CONVS)]
-        for c in casts:
-            src = (c.get("sub") or {}).get("v")
-            d = [x for x in f.events("decl") if x.get("var") == src]
-            conv_ok = bool(d) and (d[0].get("icall") in ("strtol", "std::strtol"))
-            call = [e for e in convs if e.get("callee") in ("strtol", "std::strtol")]
-            endp = None
-            fc = [e for e in convs if strip_tmpl(e.get("callee") or "") == "std::from_chars" and len(e.get("args", [])) >= 3 and e["args"][2].get("v") == src]
-            if call:
-                a1 = call[0]["args"][1]
-                endp = ((a1.get("t") or "").lstrip("&")) if (a1.get("t") or "").startswith("&") else None
-                conv_ok = conv_ok and endp is not None
-            elif fc:
-                # std::from_chars: the value is an out-parameter; failure (including overflow, which leaves the value untouched) is
-                # reported only through the result's `ec`, the end of the conversion through its `ptr`
-                conv_ok = True
+    U16 = ("uint16_t", "unsigned short")
+    is_inv = lambda e: e["k"] == "throw" and "invalid_argument" in (e.get("type") or "")
+
+    def throwing_guards(f, sink):
+        """references of the decisions that stand between the function's entry and `sink` and whose other way out always throws
+        invalid_argument -- whatever the spelling (`if (bad || bad2) throw;` before the sink, or `if (ok && ok2) <sink>; throw;`)"""
+        refs, txt = set(), []
+        for b in f.blocks.values():
+            t = b.term
+            if not t or len(b.succs) != 2 or None in b.succs:
+                continue
+            for k in (0, 1):
+                if cfg.edge_dominates(f, b.id, k, sink):
+                    other = b.succs[1 - k]
+                    # following the rest of a short-circuit chain on the other side is fine as long as every way out throws
+                    quiet = [x for x in cfg.exits_without(f, is_inv, start_block=other) if x.kind != "throw"]
+                    reaches = any(x is sink for x in cfg.events_from_block(f, other))
+                    if not quiet and not reaches or (reaches and t.get("k") in ("lor", "land")):
+                        refs |= set(t.get("leafrefs") or t.get("refs") or [])
+                        txt.append(t.get("cond") or "")
+        return refs, txt
+
+    def conversion_facts(f):
+        """(value variable, end-pointer / result variable, kind) of the text-to-number conversion in f, or None"""
+        for e in f.calls(lambda e: (e.get("callee") or "") in ("strtol", "std::strtol")):
+            d = [x for x in f.events("decl") if x.get("icall") in ("strtol", "std::strtol") and x.block == e.block and x.idx > e.idx]
+            a1 = e["args"][1] if len(e.get("args", [])) > 1 else {}
+            endp = ((a1.get("t") or "").lstrip("&")) if (a1.get("t") or "").startswith("&") else None
+            if d:
+                return d[0]["var"], endp, "strtol"
+        for e in f.calls(lambda e: strip_tmpl(e.get("callee") or "") == "std::from_chars"):
+            if len(e.get("args", [])) >= 3 and e["args"][2].get("v"):
                 rv_ = [x["var"] for x in f.events("decl") if strip_tmpl(x.get("icall") or "") == "std::from_chars" and x.get("var")]
-                endp = rv_[0] if rv_ else None
-            # bail-out
-            guard_ok = False
-            detail = "no dominating bail-out"
-            for b in f.blocks.values():
-                t = b.term
-                if not t or t.get("k") not in ("if", "lor"):
-                    continue
-            # collect the `if`/lor chain whose true edge throws invalid_argument and whose false edge dominates the cast
-            chain_refs = set()
-            chain_txt = []
-            for b in f.blocks.values():
-                t = b.term
-                if t and t.get("k") in ("if", "lor") and b.succs[0] is not None:
-                    thr = [e for e in cfg.events_from_block(f, b.succs[0], stop=lambda e: e["k"] == "throw") if e["k"] == "throw" and "invalid_argument" in (e.get("type") or "")]
-                    reach_cast = any(x is c for x in cfg.events_from_block(f, b.succs[0]))
-                    if thr and not reach_cast and (b.id in cfg.dominators(f).get(c.block, ())):
-                        chain_refs |= set(t.get("refs") or [])
-                        chain_txt.append(t.get("cond") or "")
-            full = " ".join(chain_txt)
-            # the end pointer is tested in the bail-out itself, or through a bool local computed from it
-            end_derived = lib.derived_vars(f, {endp}) if endp else set()
+                return e["args"][2]["v"], (rv_[0] if rv_ else None), "from_chars"
+        return None
+
+    def check_sink(f, sink, src, endp, kind):
+        chain_refs, _txt = throwing_guards(f, sink)
+        end_derived = lib.derived_vars(f, {endp}) if endp else set()
+        has_val = ("v:" + src) in chain_refs
+        has_max = "c:" + P + "Port::max" in chain_refs
+        has_min = "c:" + P + "Port::min" in chain_refs
+        if kind == "strtol":
             has_end = endp is not None and any(("v:" + v_) in chain_refs for v_ in end_derived)
-            has_min = "c:" + P + "Port::min" in chain_refs
-            has_max = "c:" + P + "Port::max" in chain_refs
-            has_val = src is not None and ("v:" + src) in chain_refs
-            guard_ok = has_end and has_min and has_max and has_val
-            detail = "conversion by strtol with end pointer: %s; bail-out tests *%s: %s, Port::min(): %s, Port::max(): %s" % (conv_ok, endp, has_end, has_min, has_max)
-            if fc:
-                has_ec = "f:std::from_chars_result::ec" in chain_refs
-                has_ptr = "f:std::from_chars_result::ptr" in chain_refs
-                unsigned_ = bool(d) and "unsigned" in (d[0].get("ctype") or d[0].get("type") or "")
-                guard_ok = has_ec and has_ptr and has_max and has_val and (has_min or unsigned_)
-                detail = "conversion by std::from_chars: bail-out tests result.ec: %s, result.ptr: %s, Port::max(): %s%s" % (
-                    has_ec, has_ptr, has_max, "" if has_ec else " — an out-of-range text is reported only through ec; the value keeps its initial value and passes the range test")
-            ck.ob("C19-R1", "%s/range-checked-narrowing" % f.base.replace(P, ""), conv_ok and guard_ok, c.loc, f, detail)
+            ok_ = has_end and has_min and has_max and has_val
+            return ok_, "conversion by strtol with end pointer: %s; bail-out tests *%s: %s, Port::min(): %s, Port::max(): %s" % (endp is not None, endp, has_end, has_min, has_max)
+        has_ec = "f:std::from_chars_result::ec" in chain_refs
+        has_ptr = "f:std::from_chars_result::ptr" in chain_refs
+        d = [x for x in f.events("decl") if x.get("var") == src]
+        unsigned_ = bool(d) and "unsigned" in (d[0].get("ctype") or d[0].get("type") or "")
+        ok_ = has_ec and has_ptr and has_max and has_val and (has_min or unsigned_)
+        return ok_, "conversion by std::from_chars: bail-out tests result.ec: %s, result.ptr: %s, Port::max(): %s%s" % (
+            has_ec, has_ptr, has_max, "" if has_ec else " — an out-of-range text is reported only through ec; the value keeps its initial value and passes the range test")
+    # every function of the address/port parser that converts text to a number: the converted value reaches a narrowing cast or is
+    # returned (a validating helper) only past decisions that test the end of the conversion and both bounds and otherwise throw
+    targets = []
+    validated_helpers = set()
+    nconv = 0
+    for f in [f for f in prog.library_funcs() if in_net(f) and f.blocks]:
+        cf = conversion_facts(f)
+        if not cf:
+            continue
+        src, endp, kind = cf
+        casts = [e for e in f.events("cast") if (e.get("to") or "").replace("std::", "") in U16 and (e.get("sub") or {}).get("v") == src]
+        rets = [e for e in f.events("return") if (e.get("val") or {}).get("v") == src or (e.get("t") or "").strip() == src]
+        if not casts and not rets:
+            continue
+        targets.append(f)
+        nconv += 1
+        all_ok = True
+        for snk in casts + rets:
+            ok_, detail = check_sink(f, snk, src, endp, kind)
+            all_ok = all_ok and ok_
+            ck.ob("C19-R1", "%s/range-checked-narrowing" % f.base.replace(P, ""), ok_, snk.loc, f, detail)
+        if rets and all_ok:
+            validated_helpers.add(f.base)
+    # a conversion routine that cannot report trailing text or overflow (stol / stoi / atoi / strtoul without end pointer ...)
+    for f in [f for f in prog.library_funcs() if in_net(f) and f.blocks and f not in targets]:
+        weak = {}
+        for d_ in f.events("decl"):
+            if d_.get("var") and (d_.get("icall") or "") in CONVS and (d_.get("icall") or "") not in ("strtol", "std::strtol"):
+                weak[d_["var"]] = d_["icall"]
+        for a_ in f.events("assign"):
+            m_ = re.search(r"\b((?:std::)?(?:stol|stoi|stoul|stoll|atoi|atol|strtoul|strtoll))\(", (a_.get("rhs") or {}).get("t") or "")
+            if m_ and (a_.get("lhs") or {}).get("v"):
+                weak[a_["lhs"]["v"]] = m_.group(1)
+        for var_, conv_ in weak.items():
+            for c in [e for e in f.events("cast") if (e.get("to") or "").replace("std::", "") in U16 and (e.get("sub") or {}).get("v") == var_]:
+                nconv += 1
+                targets.append(f)
+                ck.ob("C19-R1", "%s/range-checked-narrowing" % f.base.replace(P, ""), False, c.loc, f,
+                      "the port number is converted with %s, which gives no end position to test: digits followed by other text are accepted" % conv_)
+    ck.require(nconv >= 1, "functions that convert text to a port number: %d found" % nconv)
+    # narrowing casts elsewhere in the parser take the result of such a validating helper (directly or through a local)
+    for f in [f for f in prog.library_funcs() if in_net(f) and f.blocks and f not in targets]:
+        hv = {d_["var"] for d_ in f.events("decl") if d_.get("var") and strip_tmpl(d_.get("icall") or "") in validated_helpers}
+        for c in [e for e in f.events("cast") if (e.get("to") or "").replace("std::", "") in U16]:
+            sub = c.get("sub") or {}
+            from_helper = sub.get("v") in hv or any(("c:" + h_) in (c.get("refs") or []) or h_.rsplit("::", 1)[1] + "(" in (sub.get("t") or "") for h_ in validated_helpers)
+            if from_helper:
+                targets.append(f)
+                ck.ob("C19-R1", "%s/narrows-a-validated-number" % f.base.replace(P, ""), True, c.loc, f, "the operand is the result of a helper that validates end and range before it returns")
 
     # ---------------- R2 ----------------
     # (a) no conversion of an empty string: every strtol in these functions is reached only on an edge that knows `.empty()` is false
     for f in targets:
-        nonempty = lib.result_edges(f, "std::basic_string::empty", False)
         for e in f.calls(lambda e: (e.get("callee") or "") in ("strtol", "std::strtol")):
-            ok = any(cfg.edge_dominates(f, bid, k, e) for bid, k in nonempty)
+            # in the function itself, or -- for a conversion helper -- at every place the helper is called
+            ok = lib.guard_dominates(prog, e, lambda g_: lib.result_edges(g_, "std::basic_string::empty", False))
             ck.ob("C19-R2", "%s/empty-never-converted" % f.base.replace(P, ""), ok, e.loc, f,
                   "strtol is reached only when the port text is not empty" if ok else "an empty port string reaches strtol and is accepted as port 0")
     pcs = [f for f in targets if f.base == P + "Port::Port"]
